@@ -400,6 +400,13 @@ def gen_parent_spec(rng, nfr, force_mixed=False):
             else:
                 masses.append(base * (1.0 + rng.uniform(0.004, 0.02)))
         spec["masses"] = masses
+    if rng.random() < 0.25:
+        # recorded metadata about THIS molecule (correct for it): a sub-molecule's formula is about the sub-molecule's own atoms
+        from collections import Counter as _C
+
+        cnt = _C(s_.title() for s_ in symbols)
+        spec["identifiers"] = {"molecular_formula": "".join(k_ + (str(v_) if v_ > 1 else "") for k_, v_ in sorted(cnt.items()))}
+        spec["extras"] = {"note": "parent"}
     style = rng.random()
     if nfr == 1 and style < 0.5:
         # no fragment data at all: exercises the default fragments / charges / multiplicities properties
@@ -724,7 +731,8 @@ def check_electrons(mol, C, viol):
         viol("oracle:electrons", "nelectrons() is not (real nuclear charges) - charge", tot, sum(zr) - C["c"])
     per = []
     for k, fr in enumerate(C["fragments"]):
-        nk = mol.nelectrons(k)
+        # the fragment index as a Python int and, every other fragment, as the numpy integer a caller gets from np.arange / argmax
+        nk = mol.nelectrons(k if k % 2 == 0 else [np.int64, np.int32, np.intp][k % 3](k))
         per.append(nk)
         ek = sum(zr[i] for i in fr) - C["fc"][k]
         if nk != ek:
@@ -738,7 +746,7 @@ def check_nre(mol, C, viol, pend, case):
     n = len(zr)
     targets = [None] + list(range(len(C["fragments"])))
     for ifr in targets:
-        v = mol.nuclear_repulsion_energy(ifr)
+        v = mol.nuclear_repulsion_energy(ifr if (ifr is None or ifr % 2 == 1) else [np.int64, np.int32, np.intp][ifr % 3](ifr))
         idx = list(range(n)) if ifr is None else C["fragments"][ifr]
         ex = nre_exact(zr, C["geometry"], idx)
         if not (isinstance(v, float) or isinstance(v, np.floating)) or not close(v, ex, 1e-10):
